@@ -75,9 +75,9 @@ func (l *cssLexer) at(k int) int {
 	return -1 // EOF
 }
 
-func isWS(c int) bool      { return c == ' ' || c == '\t' || c == '\n' }
-func isDigitC(c int) bool  { return c >= '0' && c <= '9' }
-func isHex(c int) bool     { return isDigitC(c) || (c >= 'a' && c <= 'f') || (c >= 'A' && c <= 'F') }
+func isWS(c int) bool     { return c == ' ' || c == '\t' || c == '\n' }
+func isDigitC(c int) bool { return c >= '0' && c <= '9' }
+func isHex(c int) bool    { return isDigitC(c) || (c >= 'a' && c <= 'f') || (c >= 'A' && c <= 'F') }
 func isNameStart(c int) bool {
 	return (c >= 'a' && c <= 'z') || (c >= 'A' && c <= 'Z') || c == '_' || c >= 0x80
 }
